@@ -5,7 +5,7 @@ from ..common import Result
 ID = "C15"
 LEVEL = "exploration"
 WORLDS = [(q, "plain") for q in (1, 2, 3, 8)]
-BUDGET = {"quick": dict(cases=500), "thorough": dict(cases=12000)}
+BUDGET = {"quick": dict(cases=1000), "thorough": dict(cases=36000)}
 MIN_NONTRIVIAL = {"quick": 1000, "thorough": 12000}
 BLOB = (400, 1600)
 RULE = ("Hypothesis byte-backed generator of histories for ring capacities 1, 2, 3, 8: the C13 event histories (events of four sorts including ones that fail "
